@@ -9,10 +9,8 @@ import (
 	"verif/sim/kernel"
 
 	cfg "github.com/lianxiangcloud/linkchain/config"
-	cs "github.com/lianxiangcloud/linkchain/consensus"
 	"github.com/lianxiangcloud/linkchain/libs/common"
 	"github.com/lianxiangcloud/linkchain/libs/crypto"
-	dbm "github.com/lianxiangcloud/linkchain/libs/db"
 	"github.com/lianxiangcloud/linkchain/libs/log"
 	"github.com/lianxiangcloud/linkchain/metrics"
 	"github.com/lianxiangcloud/linkchain/types"
@@ -343,10 +341,32 @@ func (s *state) rotate(S *types.ValidatorSet, M *mSet, k int, kind string) bool 
 		for i := 0; i < k; i++ {
 			M.step()
 		}
-		if k > 1 {
-			kind = "rotate-k"
+		if k == 1 {
+			return s.same(S, M, "rotate-1")
 		}
-		return s.same(S, M, kind)
+		// one call for k rotations: same verdict keys as the split enumeration
+		if len(S.Validators) == len(M.vals) {
+			accEq := true
+			for i, v := range S.Validators {
+				if big.NewInt(v.Accum).Cmp(M.vals[i].accum) != 0 {
+					accEq = false
+				}
+			}
+			propEq := string(S.GetProposer().Address) == M.proposer()
+			if !accEq || !propEq {
+				key := "rotation/split/proposer-differs-priorities-equal"
+				if !accEq {
+					key = "rotation/split/priorities-differ"
+				}
+				if c.Violate("path-dependence", key, "IncrementAccum(%d) in one call differs from %d single rotations: proposer power %d, reference proposer %s, priorities equal=%v",
+					k, k, S.GetProposer().VotingPower, short(M.proposer()), accEq) {
+					return false
+				}
+				c.Probe("known-split-divergence")
+				s.resync(S, M)
+			}
+		}
+		return s.same(S, M, "rotate-k")
 	}
 	// saturating territory: demand "never wraps", not a particular order of clamps
 	c.Probe("rotation-in-saturating-range")
